@@ -144,6 +144,50 @@ CHECKS["C17"] = dict(
          "values the callbacks see and the constants in the recorded terms.",
     technique="Coq proof over object-tree model + per-call differential correspondence of callback logs",
     ref="DESIGN.md §3 C17")
+CHECKS["C05"] = dict(
+    text="Theorems (Coq, closed; the satisfiability test is a parameter, premise: monotone in the set of terms) about a model of "
+         "the soft phase (all at once, else greedy by descending priority), of the priorities by visit order and of the guards of "
+         "nested soft constraints: soft constraints never make a satisfiable hard system fail; every rejected one conflicts with the "
+         "hard constraints and the accepted ones (maximality), already with those of higher priority (later / inline wins), decisions "
+         "are independent of lower priorities; a nested soft constraint carries exactly its enclosing conditions and its term is true "
+         "iff the guards do not all hold or it does. Tie per call: the batch of soft terms handed to the solver equals the model's "
+         "soft terms in priority order; the returned values are checked for priority-greedy maximality by enumeration in Coq.",
+    note=SOLVER_NOTE + "Guards of nested soft constraints are relational (1-bit) conditions.",
+    technique="Coq proof over abstract satisfiability test + per-call term/order correspondence and enumeration oracle in Coq",
+    ref="DESIGN.md §3 C05")
+CHECKS["C14"] = dict(
+    text="PARTIAL. Theorems (Coq, closed): the range-trimming primitives of bounds inference never remove a value satisfying "
+         "the bound; the randomising pattern's slices are exactly the low d bits, within the chosen range these bits (sign bit "
+         "included) determine the value, a pattern equal to a feasible value is consistent with every slice constraint and pins "
+         "that value (so it has non-zero probability). The library's inferred ranges as a whole are not modelled: per call the bound "
+         "map handed to the randomizer is recorded and every solution of the hard constraints (enumerated in Coq) must lie in it, and "
+         "an unmentioned field must range over its whole type.",
+    note=SOLVER_NOTE + "Which completion Boolector picks when several feasible values share the pinned bits (multi-range domains) "
+         "is a runtime behaviour outside the model. Known finding bounds.python_int_semantics.",
+    technique="Coq proofs of swizzle / trimming primitives + per-call enumeration oracle on the recorded inferred domains",
+    ref="DESIGN.md §3 C14")
+CHECKS["C15"] = dict(
+    text="PARTIAL (frequency of dist constraints). Theorems (Coq, closed) counting the equally likely draws: distselect / "
+         "randselect select index i for exactly weight_i of the total draws, never a zero-weight entry, always a valid index; the "
+         "target entry of a dist constraint is chosen likewise among the non-zero weights. Tie: exhaustive — for every weight vector "
+         "up to length 4/5 with entries 0..4/6 every value the draw can return is substituted into the real distselect and "
+         "randselect and compared with the model and with the counting specification inside Coq.",
+    note="Trusted: Coq kernel, harness, CPython's generator (modelled as a uniform draw). The rewrite of dist constraints into "
+         "`in` + zero-weight exclusions is exercised through the solver harness only when dist statements are generated (not yet "
+         "in the quick tier).",
+    technique="Coq counting proof + exhaustive draw substitution against the real helpers",
+    ref="DESIGN.md §3 C15")
+CHECKS["C20"] = dict(
+    text="PARTIAL (distribution). Theorems (Coq, closed): solve_order declarations make every after-field depend on every "
+         "before-field; the ordered groups of a rand set put a before-field in a strictly earlier group (chains, lists), are "
+         "disjoint and within the rand set; for the first-solved field a drawn pattern equal to a feasible value is kept and pins "
+         "that value (so with feasible = inferred range its distribution is that of the draw, whatever accompanies it). Tie: six "
+         "templates randomised 360/2400 times: normal return, swizzle order in the solver transcript, histograms of the "
+         "first-solved fields against the uniform distribution (6.1 sigma), and the C01/C02 oracle on the first calls.",
+    note=SOLVER_NOTE + "Uniformity of CPython's generator and Boolector's choice for infeasible patterns are runtime behaviours "
+         "(histograms are support, not proof).",
+    technique="Coq proof of ordering + pattern lemmas; transcript order check and exact-tail histograms against the real solver",
+    ref="DESIGN.md §3 C20")
 NOT_YET = {}
 
 def main():
